@@ -37,7 +37,7 @@ import (
 type c22Op struct {
 	Op   int `json:"op"`   // 0 install 1 use 2 remove
 	Key  int `json:"key"`  // index into c22Pool
-	Body int `json:"body"` // 0 well-formed; 1 truncated; 2 garbage; 3 msgpack of the wrong shape
+	Body int `json:"body"` // 0 well-formed; 1 truncated; 2 garbage; 3 msgpack of the wrong shape; 4 empty payload
 	Cut  int `json:"cut"`  // truncation point / garbage selector
 }
 
@@ -95,7 +95,7 @@ func genC22(t *rapid.T) c22Case {
 			op.Key = rapid.IntRange(0, c22Valid-1).Draw(t, "key")
 		}
 		if rapid.IntRange(0, 7).Draw(t, "malformed") == 0 {
-			op.Body = rapid.IntRange(1, 3).Draw(t, "body")
+			op.Body = rapid.IntRange(1, 4).Draw(t, "body")
 			op.Cut = rapid.IntRange(0, 40).Draw(t, "cut")
 		} else {
 			gm.apply(op.Op, c22Pool[op.Key])
@@ -197,6 +197,8 @@ func c22Payload(op c22Op) []byte {
 		shapes := []any{map[string]any{"Key": 5}, map[string]any{"Nope": []byte("x")}, []any{1, 2}, "str", nil, map[string]any{}}
 		b, _ := mpEnc(shapes[op.Cut%len(shapes)])
 		return append([]byte{serf.VerifMessageKeyRequestType}, b...)
+	case 4:
+		return nil
 	}
 	return valid
 }
@@ -289,7 +291,7 @@ func bodyC22(c c22Case, x *vkit.Ctx) {
 		name := c22Names[op.Op%3]
 		// what does the request say (independent read of the body)?
 		var req wKeyReq
-		wellFormed := mpDec(payload[1:], &req) == nil
+		wellFormed := len(payload) >= 1 && mpDec(payload[1:], &req) == nil
 		before := append([][]byte{}, ring.GetKeys()...)
 		fileBefore, _ := os.ReadFile(path)
 		wasNonFirst := wellFormed && model.has(req.Key) > 0
